@@ -402,6 +402,29 @@ PROPS["C18"] = dict(
     level_note="Trusted: the adapters (70 lines), libidn2, ASan/LSan, the Makefile's FORCE_IDN/DEFS mechanism, shim.",
 )
 
+PROPS["C14"] = dict(
+    level="exploration",
+    default_binary="c14",
+    binaries={"c14": dict(src=["props/c14.cpp"], variants=["tsan"], san="tsan")},
+    stages=[
+        stage("workloads", kind="rc", quick=150, thorough=2500, max_size=100, workers=16),
+    ],
+    rule="Schedules: workloads of 2-16 threads, each running 120-380 calls on its own eav_t (eav_setup to any mode, tld_check / allow_tld changes, "
+         "eav_is_email) mixed with is_<mode>_email and the stateless per-part validators called directly on shared read-only strings (the "
+         "repository corpus + reserved / literal / IDN addresses), with generated yield points; every workload is executed sequentially, then three "
+         "times concurrently from a barrier with different yield patterns, in a ThreadSanitizer build of library and harness. Non-trivial = every "
+         "thread completed >= 100 validations after the barrier; distinct by workload hash. 16 workloads run at the same time on 16 cores, so the "
+         "machine is oversubscribed (real preemption).",
+    assumptions=["this family does not enumerate interleavings: TSan flags a conflicting access pair whenever both accesses are executed without a "
+                 "happens-before edge, whatever the timing; races needing a rare path in two threads at once, or inside the uninstrumented IDN library, can be missed",
+                 "each thread uses its own eav_t (the documented usage); shared strings are never written"],
+    min_evaluations=dict(quick=200_000, thorough=4_000_000),
+    technique="schedule exploration with a race detector: rapidcheck-generated multi-thread workloads under ThreadSanitizer with yield perturbation, plus concurrent-vs-sequential result differential",
+    level_text="Exploration: ThreadSanitizer is the race oracle (independent of the schedule actually taken for executed access pairs), the "
+               "sequential execution of the same call lists is the result oracle. No interleaving coverage is claimed.",
+    level_note="Trusted: ThreadSanitizer (clang 14), pthreads; libidn2 is not instrumented.",
+)
+
 
 def stages_for(pid, tier):
     out = []
